@@ -251,6 +251,9 @@ def cat_layout_errors(rng):
         "  0 [+1]  UInt  after", "  0 [+1]  UInt  class", "  $next [+1]  UInt  t",
         "  0 [+1]  UInt  u\n  0xffff_ffff_ffff_ffff [+u]  UInt:8[]  v",
         "  0 [+$max_size_in_bytes]  UInt:8[]  w",
+        "  0 [+-1]  UInt  neg\n  let neg_plus = neg + 1", "  0 [+4]  bits:\n    0 [+0]  UInt  zero_bits\n    1 [+-2]  Int  neg_bits",
+        "  0 [+8]  bits:\n    0 [+65]  UInt  wide_bits\n    1 [+18446744073709551616]  Int  huge_bits",
+        "  0 [+18446744073709551615]  Bcd  huge\n  let huge_plus = huge + 1", "  0 [+600]  Int  big\n  if big > 3:\n    600 [+1]  UInt  after_big",
     ]
     lines = [_hdr(rng), f"struct {camel(rng)}:"]
     chosen = rng.sample(cands, rng.randint(1, 4))
@@ -327,10 +330,55 @@ def valid_project(rng):
     return {"lib/types.emb": lib, "m.emb": main}, "m.emb", ["valid", "anonymous_bits", "imports"]
 
 
+def cat_cross_file_notes(rng):
+    """Errors in a short importing file whose notes point into a long imported file: wrong parameter
+    count / kind, static reference to a physical or non-constant field, explicit size that does not
+    match an imported fixed-size type, a requirement of a prelude type."""
+    used = []
+    e, p1, p2, plain = camel(rng, used), camel(rng, used), camel(rng, used), camel(rng, used)
+    v1, v2 = shouty(rng, used), shouty(rng, used)
+    def padding():
+        return "".join(rng.choice(["\n", "# filler\n", "#\n"]) for _ in range(rng.randint(0, 40)))
+
+    pad = padding()
+    lib = _hdr(rng) + padding()
+    lib += f"enum {e}:\n  {v1} = 1\n  {v2} = 2\n" + padding()
+    lib += f"struct {p1}(count: UInt:8):\n  0 [+1]  UInt  first\n  1 [+count]  UInt:8[]  rest\n  let twice = first * 2\n  let fixed = 7\n"
+    lib += padding()
+    lib += f"struct {p2}(kind: {e}, scale: Int:16):\n  0 [+2]  UInt  raw\n  if kind == {e}.{v2}:\n    2 [+2]  UInt  more\n"
+    lib += f"struct {plain}:\n  0 [+4]  UInt  word\n  let half = word * 1\n"
+    uses = [
+        f"  {{o}} [+4]  lib.{p1}  f{{n}}",                               # no parameters given
+        f"  {{o}} [+4]  lib.{p1}(1, 2)  f{{n}}",                         # too many
+        f"  {{o}} [+4]  lib.{p2}(lib.{e}.{v1})  f{{n}}",                 # too few
+        f"  {{o}} [+4]  lib.{p2}(3, 4)  f{{n}}",                         # integer where an enum is wanted
+        f"  {{o}} [+4]  lib.{p2}(lib.{e}.{v1}, lib.{e}.{v2})  f{{n}}",   # enum where an integer is wanted
+        f"  {{o}} [+4]  lib.{p1}(true)  f{{n}}",                         # boolean parameter
+        f"  {{o}} [+4]  lib.{plain}(1)  f{{n}}",                         # parameter for a type without any
+        f"  {{o}} [+lib.{plain}.word]  UInt:8[]  f{{n}}",                # static reference to a physical field
+        f"  {{o}} [+lib.{p1}.twice]  UInt:8[]  f{{n}}",                  # static reference to a non-constant virtual
+        f"  {{o}} [+4]  lib.{plain}:16  f{{n}}",                         # explicit size against an imported fixed-size type
+        f"  {{o}} [+9]  UInt  f{{n}}",                                   # requirement of a prelude type
+        f"  {{o}} [+4]  lib.{p1}(lib.{p1}.fixed)  f{{n}}",               # fine
+    ]
+    lines = ['import "lib/defs.emb" as lib', _hdr(rng).rstrip("\n"), f"struct {camel(rng, used)}:"]
+    # few flaws per file, so that later passes are reached as often as early ones
+    n_bad = rng.choice([0, 0, 1, 1, 1, 2, 3])
+    picks = [rng.choice(uses[:-1]) for _ in range(n_bad)] + [uses[-1]] * rng.randint(0, 2)
+    rng.shuffle(picks)
+    for n, u in enumerate(picks):
+        lines.append(u.format(o=n * 16, n=n))
+    if not picks:
+        lines.append("  0 [+1]  UInt  only")
+    if rng.random() < 0.5:
+        lines.append(f"enum {camel(rng, used)}:\n  AA = lib.{plain}.half\n  BB = lib.{p1}.fixed")
+    return {"lib/defs.emb": lib, "m.emb": "\n".join(lines) + "\n"}, "m.emb", ["cross_file_notes", "error_in_imported_file"]
+
+
 CATALOGUE = [
     cat_multi_cycle, cat_virtual_cycles, cat_import_cycles, cat_ambiguous, cat_duplicates,
     cat_bad_attributes, cat_type_errors, cat_layout_errors, cat_unknown_import,
-    cat_error_in_import, cat_prelude_clash, valid_with_anonymous_bits, valid_project,
+    cat_error_in_import, cat_prelude_clash, valid_with_anonymous_bits, valid_project, cat_cross_file_notes,
 ]
 
 
